@@ -486,4 +486,6 @@ def run(repo='/repo', tier='quick'):
                         'index arithmetic by small constants does not wrap']
     from . import retain
     retain.run(db, res)
+    from . import useb4test
+    useb4test.run(db, res)
     return res
